@@ -57,7 +57,7 @@ func (d detReader) Read(p []byte) (int, error) {
 
 type zObjects struct {
 	Certs, CSRs, CRLs, SPKIs, PKCS1Priv, PKCS1Pub, PKCS8, ECPriv, OCSPReq, OCSPResp [][]byte
-	EncPEM                                                                           []*pem.Block
+	EncPEM                                                                          []*pem.Block
 	// parsed issuer/leaf pairs for the OCSP entry points
 	Issuers []*zx509.Certificate
 	Leaves  []*zx509.Certificate
@@ -204,8 +204,9 @@ func zSeeds() *zObjects {
 					if b, err := ca.CreateCRL(rd, s.signer, revoked, t0, t0.AddDate(0, 0, 7)); err == nil {
 						o.CRLs = append(o.CRLs, b)
 					}
+					reason := 1
 					rl := &zx509.RevocationList{SignatureAlgorithm: alg, Number: big.NewInt(3), ThisUpdate: t0, NextUpdate: t0.AddDate(0, 0, 7),
-						RevokedCertificates: []zx509.RevokedCertificate{{SerialNumber: big.NewInt(9), RevocationTime: t0, ReasonCode: 1}}}
+						RevokedCertificates: []zx509.RevokedCertificate{{SerialNumber: big.NewInt(9), RevocationTime: t0, ReasonCode: &reason}}}
 					if b, err := zx509.CreateRevocationList(rd, rl, ca, s.signer); err == nil {
 						o.CRLs = append(o.CRLs, b)
 					}
